@@ -299,6 +299,19 @@ def split_template(t):
     return out
 
 
+def _deep_clone(v):
+    """Rust's clone of owned data: nothing is shared with the original (models of foreign handles are kept as they are)"""
+    if isinstance(v, ListV):
+        return ListV([_deep_clone(x) for x in v.items])
+    if isinstance(v, Var):
+        return Var(v.path, [_deep_clone(x) for x in v.args], {k: _deep_clone(x) for k, x in v.fields.items()})
+    if isinstance(v, tuple):
+        return tuple(_deep_clone(x) for x in v)
+    if isinstance(v, Rope):
+        return Rope(list(v.pieces))
+    return v
+
+
 def _plain(v):
     """ropes made of literal text only compare as strings, also inside Option/Result/tuples"""
     if isinstance(v, Rope) and all(isinstance(x, str) for x in v.pieces):
@@ -989,6 +1002,8 @@ class Interp:
             return Sym("uninit")
         if cn in ("std::vec::Vec::new", "alloc::vec::Vec::new", "std::vec::Vec::with_capacity"):
             return ListV([])
+        if cn.endswith("vec::from_elem") and len(args) == 2 and isinstance(args[1], int):
+            return ListV([_deep_clone(args[0]) for _ in range(args[1])])
         if cn in ("std::string::String::new", "alloc::string::String::new", "std::string::String::with_capacity"):
             return Rope()
         if cn in ("indexmap::IndexMap::new", "indexmap::IndexMap::with_capacity", "std::collections::HashMap::new", "std::collections::BTreeMap::new", "indexmap::IndexSet::new", "std::collections::HashSet::new"):
@@ -1191,7 +1206,9 @@ class Interp:
                 d = self.deref(recv)
                 if d is not None:
                     return d
-            if isinstance(recv, ListV) and name in ("iter", "into_iter", "clone", "to_vec", "collect", "cloned"):
+            if name in ("clone", "to_vec", "to_owned", "cloned") and isinstance(recv, (ListV, Var, tuple, Rope)):
+                return _deep_clone(recv)
+            if isinstance(recv, ListV) and name in ("iter", "into_iter", "collect"):
                 return ListV(list(recv.items))
             return recv
         if is_unknown(recv):
@@ -1249,6 +1266,26 @@ class Interp:
                     return Unknown("predicate not boolean: %r" % (r,))
                 res.append(r)
             return all(res) if name == "all" else any(res)
+        if name in ("iter_mut", "as_mut_slice", "as_mut") and isinstance(recv, ListV) and not args:
+            return recv
+        if name == "for_each" and isinstance(recv, ListV) and len(args) == 1:
+            for x in list(recv.items):
+                r = self.apply(args[0], [x])
+                if is_unknown(r):
+                    return r
+            return UNIT
+        if name == "resize" and isinstance(recv, ListV) and len(args) == 2 and isinstance(args[0], int):
+            if len(recv.items) > args[0]:
+                del recv.items[args[0]:]
+            while len(recv.items) < args[0]:
+                recv.items.append(_deep_clone(args[1]))
+            return UNIT
+        if name in ("shift_remove", "swap_remove", "remove") and isinstance(recv, ListV) and len(args) == 1 and all(isinstance(x, tuple) and len(x) == 2 for x in recv.items) and recv.items and not isinstance(args[0], int):
+            for i_, (k_, v_) in enumerate(recv.items):
+                if _plain(k_) == _plain(args[0]):
+                    del recv.items[i_]
+                    return Var(SOME_PATHS[0], [v_])
+            return Var(NONE_PATHS[0])
         if name == "remove" and isinstance(recv, ListV) and len(args) == 1 and isinstance(args[0], int) and 0 <= args[0] < len(recv.items):
             return recv.items.pop(args[0])
         if name in ("find", "position") and isinstance(recv, ListV) and len(args) == 1:
